@@ -391,3 +391,102 @@ def check_C08(rep, tier):
                         "specification's MustNotRun set.  Non-trivial = failure required or some inspection must not run.",
                         ["LayoutSig", "Expiry", "LoadLinks", "LinkSigs", "EnterSub", "Agreement", "Reduce", "StepRules",
                          "RunInspection", "InspectRules", "Finish"], fams=["ed25519"] if tier == "quick" else ["ed25519", "ecdsa"])
+
+
+def check_C15(rep, tier):
+    rep.cov["rule"] = ("TLC enumerates the state of the sub-layout that is the evidence of a step (valid, signed by another key under "
+                       "the functionary's id, misfiled, signer not authorised for the step, expired, tampered, unsigned, signed by the "
+                       "parent's owner, inner link missing / unauthorised / badly signed, inner rule failing, inner links in the parent "
+                       "directory) x inner step sequences of length 1..3 (distinct artifacts, commands, byproducts) x delegation depth "
+                       "2 and 3; replay builds the directory tree and compares verdict and returned summary link.  Non-trivial = "
+                       "failure required.")
+    vr = VerifyRun(rep, "C15")
+    acts = ["LayoutSig", "Expiry", "LoadLinks", "LinkSigs", "EnterSub", "SubDone", "Reduce", "StepRules", "Finish"]
+    vr.tlc("MC_C15", "MC_C15_quick.cfg", acts)
+    vr.tlc("MC_C15", "MC_C15_deep.cfg", acts)
+    rep.cov["exhaustive"] = True
+    vr.replay(families_for(tier))
+    vr.sh.cleanup()
+    rep.assumptions += VERIFY_ASSUME
+
+
+def check_C13(rep, tier):
+    rep.cov["rule"] = ("TLC enumerates steps with surplus valid authorised links that differ (plain links and a sub-layout summary) x "
+                       "thresholds x rule sets that do / do not depend on the representative link; Reduce is nondeterministic in "
+                       "Verify.tla so TLC yields the set of admissible (verdict, summary) pairs per scenario.  Each scenario is verified "
+                       "N times in-process (fresh hash seeds per map) and again in fresh processes; the observation history is "
+                       "validated against Determinism.tla (all observations of one scenario equal, each admitted by Verify.tla).  "
+                       "Non-trivial = the specification admits more than one outcome (pick-sensitive scenario).")
+    vr = VerifyRun(rep, "C13")
+    poss = {}
+
+    base_on = vr.on_scn
+
+    def on_scn(s):
+        base_on(s)
+        i = vr.seen[scn_key({"scn": s["scn"]})]
+        poss.setdefault(i, set()).add("err" if s["out"] == "err" else "ok " + norm_sum(s["sum"]))
+
+    vr.on_scn = on_scn
+    vr.nontrivial_fn = lambda s: False
+    vr.tlc("MC_C13", f"MC_C13_{tier}.cfg", ["LayoutSig", "LinkSigs", "EnterSub", "Agreement", "Reduce", "StepRules", "Finish"])
+    rep.cov["exhaustive"] = True
+    sens = [i for i, p in poss.items() if len(p) > 1]
+    for i in sens:
+        rep.nontrivial(i)
+    rep.cov["pick_sensitive_scenarios"] = len(sens)
+    n = 32 if tier == "quick" else 256
+    # rewrite shard inputs with a repeat count
+    for f in vr.sh.files:
+        f.close()
+    for k in range(vr.sh.n):
+        path = os.path.join(vr.sh.dir, f"in{k}.ndjson")
+        with open(path) as f:
+            rows = [json.loads(x) for x in f if x.strip()]
+        with open(path, "w") as f:
+            for r in rows:
+                r["repeat"] = n
+                f.write(json.dumps(r, separators=(",", ":")) + "\n")
+    vr.sh.files = []
+    hist = os.path.join(vlib.OUT, "c13.history.ndjson")
+    nobs = 0
+    with open(hist, "w") as hf:
+        fam2 = families_for(tier)[-1]
+        for i, p in sorted(poss.items()):
+            for fam in ("ed25519", fam2):
+                hf.write(json.dumps({"ev": "declare", "id": f"{i}/{fam}", "set": sorted(p)}) + "\n")
+        for pas in range(4 if tier == "quick" else 8):
+            # same scenario + same key family = same inputs; every pass is a set of fresh processes
+            env = {"ITV_FAMILY": "ed25519" if pas % 2 == 0 else fam2}
+            vr.sh.run(env_extra=env, per_shard_cwd=True)
+            for r in vr.sh.results():
+                vr.judge(r, env)
+                for d in r.get("distinct", []):
+                    obs = "err" if d["out"] == "err" else (d["out"] + " " + (norm_sum(d.get("sum")) or "?"))
+                    hf.write(json.dumps({"ev": "observe", "id": f'{r["i"]}/{env["ITV_FAMILY"]}', "obs": obs, "pass": pas}) + "\n")
+                    nobs += 1
+                rep.cov["evaluations"] += n + 1
+    total, rejected, tst = validate_trace(hist, "Determinism", "Determinism.cfg", "t13", reset_ev="NONE", max_rounds=1)
+    rep.cov["parts"]["history"] = {"observations": nobs, "runs_per_scenario": n, "states": tst.distinct}
+    rep.cov["traces_validated_against_impl"] += nobs
+    if rejected:
+        # find every scenario with more than one distinct observation
+        seen = {}
+        with open(hist) as f:
+            for line in f:
+                e = json.loads(line)
+                if e["ev"] == "observe":
+                    seen.setdefault(e["id"], set()).add(e["obs"])
+        bad = [k for k, s in seen.items() if len(s) > 1 or not s <= poss.get(int(k.split("/")[0]), s)]
+        for k in bad:
+            i = int(k.split("/")[0])
+            rep.mismatch({"kind": "nondeterministic_verdict" if len(seen[k]) > 1 else "outcome_not_admitted"},
+                         lambda i=i, k=k: {"scn": dict(vr.sh.scenario(i), allow=vr.allow[i]), "observed": sorted(seen[k]),
+                                           "admitted": sorted(poss[i]), "env": {"ITV_FAMILY": k.split("/")[1]}})
+        if not bad:
+            raise ToolError("Determinism.tla rejected the history but no offending scenario was found")
+    with open(hist) as f:
+        rep.sample({"history_prefix": [json.loads(x) for x in f.read().split("\n")[:2] if x]})
+    os.remove(hist)
+    vr.sh.cleanup()
+    rep.assumptions += VERIFY_ASSUME + ["hash-seed variation is obtained from std's per-map RandomState and from fresh processes; N runs per scenario is a sample of the seeds"]
